@@ -36,17 +36,19 @@ Qed.
 
 Lemma compile_globals_wf G gs : forall i p cg p',
   compile_globals G gs i p = Some (cg, p') -> lims G 0 (length p') -> i + length gs <= length (g_globals G) ->
+  Forall (fun g => lit_small (snd g)) gs ->
   Forall (wf_instr table) cg /\ pool_le p p'.
 Proof.
-  induction gs as [|[[x t] e] r IH]; intros i p cg p' H HL Hi; cbn [compile_globals] in H.
+  induction gs as [|[[x t] e] r IH]; intros i p cg p' H HL Hi HS; cbn [compile_globals] in H.
   - apply some2_inj in H. destruct H as [<- <-]. split; [constructor|apply pool_le_refl].
   - destruct (compile_expr G [] e p) as [[c p1]|] eqn:E1; [|discriminate].
     destruct (compile_globals G r (S i) p1) as [[cr p2]|] eqn:E2; [|discriminate].
     apply some2_inj in H. destruct H as [<- <-]. cbn [length] in Hi.
-    destruct (IH _ _ _ _ E2 HL ltac:(lia)) as [Wr Pr]. pose proof (compile_expr_pool _ _ _ _ _ _ E1) as P1.
+    inversion HS as [|g0 r0 HSe HSr]; subst. cbn [snd] in HSe.
+    destruct (IH _ _ _ _ E2 HL ltac:(lia) HSr) as [Wr Pr]. pose proof (compile_expr_pool _ _ _ _ _ _ E1) as P1.
     split; [|eapply pool_le_trans; eassumption].
     apply Forall_app. split; [|apply Forall_app; split; [|exact Wr]].
-    + eapply compile_expr_wf; [exact E1|]. eapply lims_mono; [exact HL|cbn; lia|apply pool_le_length; exact Pr].
+    + eapply compile_expr_wf; [exact E1| |exact HSe]. eapply lims_mono; [exact HL|cbn; lia|apply pool_le_length; exact Pr].
     + constructor; [|constructor]. apply (wf_u32 _ _ (length (g_globals G))); try reflexivity; [lia|].
       destruct HL as (_ & _ & Hg & _). unfold VM_MAX_GLOBALS_N in Hg. lia.
 Qed.
